@@ -160,7 +160,12 @@ def r2_count_loops(chk, rm, rx):
                     if isinstance(x, (ast.Break, ast.Continue, ast.Return)):
                         problems.append(f"`{type(x).__name__.lower()}` inside the record loop")
                     if isinstance(x, ast.Try):
-                        problems.append("try block inside the record loop")
+                        # a try whose every handler ends in `raise` cannot make an iteration complete without its append
+                        from ..canon import _ends
+
+                        soft = [h for h in x.handlers if not _ends(h.body, (ast.Raise,))]
+                        if soft or x.finalbody and any(isinstance(y, (ast.Return, ast.Break, ast.Continue)) for b_ in x.finalbody for y in ast.walk(b_)):
+                            problems.append("try block inside the record loop whose handler does not raise")
                     if isinstance(x, ast.Call) and (call_name(x) or "").endswith("next_noexcept"):
                         problems.append("next_noexcept() inside the record loop turns end of input into None")
             if l.orelse:
